@@ -13,6 +13,25 @@ type Value interface{}
 
 type StructV struct{ f []Value }
 type ArrayV struct{ e []Value }
+
+// AbstractArr is the backing store of a length-abstracted (large) byte slice: only offsets, lengths and capacities
+// are tracked; element reads yield 0 and element writes are dropped (option AbstractBigAllocs, stated as a cut).
+type AbstractArr struct{}
+
+func arrLen(o *Object) int {
+	if a, ok := o.val.(ArrayV); ok {
+		return len(a.e)
+	}
+	return 0
+}
+
+func isAbstract(o *Object) bool {
+	if o == nil {
+		return false
+	}
+	_, ok := o.val.(AbstractArr)
+	return ok
+}
 type PathElem struct {
 	field int
 	idx   *Term // non-nil => array index
@@ -418,6 +437,8 @@ func iteVal(c *Term, a, b Value) Value {
 		}
 		return r
 	case IterV:
+		return a
+	case AbstractArr:
 		return a
 	case nil:
 		return nil
